@@ -216,6 +216,44 @@ func runCodec(in, out string, _ []string) error {
 				rev["ok"], rev["apps"] = true, appsDigest(r)
 			}()
 		}
+		if sc.Cli == "" {
+			// the same module, edited in place after it has been written once, is written again: the second binary
+			// artefact is the edited model (whatever the first emission left behind in the messages)
+			names := sortedAppNames(m)
+			if len(names) > 0 {
+				a := m.GetApps()[names[0]]
+				a.LongName += " (edited: \"quoted\", back\\slash, é)"
+				if a.Attrs == nil {
+					a.Attrs = map[string]*sysl.Attribute{}
+				}
+				a.Attrs["edited"] = &sysl.Attribute{Attribute: &sysl.Attribute_S{S: "a value that was not there when the model was first written"}}
+				// (the digests are taken from a copy: measuring the module itself would refresh what the first
+				// emission left in it)
+				ev := modelDigests(proto.Clone(m).(*sysl.Module))
+				ev["t"], ev["e"] = sc.ID, "model"
+				w.Emit(ev)
+				fs := afero.NewMemMapFs()
+				err := libEncode(m, "pb", "model.pb", fs, pbutil.OutputOptions{})
+				w.Emit(tr.Ev{"t": sc.ID, "e": "encode", "fmt": "pb", "compact": false, "ok": err == nil, "msg": fmt.Sprint(err), "after": "edit"})
+				if err == nil {
+					dev := tr.Ev{"t": sc.ID, "e": "decode", "fmt": "pb", "compact": false, "ok": false, "full": "", "noloc": ""}
+					func() {
+						defer func() {
+							if p := recover(); p != nil {
+								dev["msg"] = fmt.Sprint(p)
+							}
+						}()
+						d, err := pbutil.FromPB("model.pb", fs)
+						if err != nil {
+							dev["msg"] = err.Error()
+							return
+						}
+						dev["ok"], dev["full"], dev["noloc"] = true, detDigest(d), digestNoLocKeepImports(d)
+					}()
+					w.Emit(dev)
+				}
+			}
+		}
 		return nil
 	})
 }
